@@ -439,7 +439,7 @@ func newSite(w world, debounce time.Duration, ambient bool) *site {
 		objs = append(objs, ambientKubeObjects(w)...)
 	}
 	s := xdsfake.NewFakeDiscoveryServer(f, xdsfake.FakeOptions{Configs: cfgs, KubernetesObjects: objs,
-		MeshConfig: convergeMesh, DebounceTime: debounce})
+		MeshConfig: meshFor(w), DebounceTime: debounce})
 	quiet.Silence()
 	return &site{f: f, s: s, ambient: ambient}
 }
@@ -534,6 +534,9 @@ func (st *site) quiesce(sets []*clientSet, calm, limit time.Duration) bool {
 }
 
 func (st *site) apply(op string, id string, variant int, cur world) error {
+	if isMesh(id) {
+		return st.applyMesh(op, variant, cur)
+	}
 	if isKube(id) {
 		return applyKube(st.s.KubeClient(), op, id, variant, cur)
 	}
@@ -576,7 +579,48 @@ func (d diffEntry) key() string { return d.Proxy + "/" + d.Type + "/" + d.Name }
 // soft: a difference of a classified kind (a recorded finding); the history goes on after it
 func (d diffEntry) soft() bool {
 	return d.Kind == "stale-san" || d.Kind == "stale-mx" || d.Kind == "stale-provider-unimported" ||
-		d.Kind == "stale-sidecar-switches-service"
+		d.Kind == "stale-sidecar-switches-service" || d.Kind == kindDNSLastWorkload
+}
+
+// Recorded finding 7: when the LAST workload selected by a DNS ServiceEntry with a workloadSelector goes away only an
+// incremental endpoint push goes out; a long-lived istiod keeps generating the STRICT_DNS cluster with the removed
+// workload's address, a cold-started one generates no cluster. Recognised by trigger: the cluster (CDS, and the EDS a
+// generator is asked for under that name) of a host of dnsSelectorHosts exists only on the long-lived side, against a
+// COLD reference, after the registry shard of that host went from some endpoints to none and before the host regained
+// an endpoint or its ServiceEntry changed (either is a full push that must clean up).
+const kindDNSLastWorkload = "stale-dns-last-workload"
+
+// dnsSelectorHosts: host -> the DNS-resolution ServiceEntry with a workloadSelector that defines it
+var dnsSelectorHosts = map[string]string{"d.example.com": "se-d"}
+
+// dnsZeroTracker follows the trigger of finding 7 through a history.
+type dnsZeroTracker map[string]bool
+
+// step must be called BEFORE world w is updated with step s; it returns the hosts whose trigger state was reset.
+func (z dnsZeroTracker) step(s step, w world) (reset []string) {
+	after := w.clone()
+	if s.Op == "delete" {
+		delete(after, s.ID)
+	} else {
+		after[s.ID] = s.Variant
+	}
+	for h, se := range dnsSelectorHosts {
+		switch {
+		case s.ID == se || shardEndpoints(after, h) > 0:
+			if z[h] {
+				reset = append(reset, h)
+			}
+			delete(z, h)
+		case shardEndpoints(w, h) > 0 && shardEndpoints(after, h) == 0:
+			z[h] = true
+		}
+	}
+	return reset
+}
+
+func (z dnsZeroTracker) matches(typ, name, kind string) bool {
+	// extra-cached (rebuild stream): the server's xDS cache still holds the cluster - nothing invalidated it either
+	return (kind == "extra" || kind == "extra-cached") && (typ == "CDS" || typ == "EDS") && hostIn(z, name)
 }
 
 func (d diffEntry) tok() string {
@@ -783,6 +827,9 @@ func settleAndCompare(st *site, refSite *site, long *clientSet, ignore map[strin
 			if k, ok := ignore[x.key()]; ok {
 				// a finding of kind k was recorded on this resource earlier in the history: only the
 				// field it is about is ignored from then on
+				if k == kindDNSLastWorkload && x.Kind == "extra" {
+					continue // finding 7 is about the existence of the resource (the entry is dropped when the trigger resets)
+				}
 				if x.Kind != "missing" && x.Kind != "extra" && stripField(k, x.Held) == stripField(k, x.Want) {
 					continue
 				}
@@ -843,9 +890,30 @@ func runCase(c caseDef) caseResult {
 	ignore := map[string]string{}
 	var softVerdict *caseResult
 	var trigger []string // objects changed since the last comparison
+	wPrev := w.clone()   // the world at the last comparison
+	// the triggers of findings 3 and 4, history wide: hosts whose service lost ALL endpoints of a shard
+	// at some step (finding 3), hosts whose endpoint membership changed at some step (finding 4)
+	zeroed, touched := map[string]bool{}, map[string]bool{}
+	dnsZeroed := dnsZeroTracker{}
 	check := func(ref *site, clause string, after int) *caseResult {
 		d, e := settleAndCompare(st, ref, long, ignore)
-		relabelProviderUnimported(w, trigger, d)
+		for i := range d {
+			switch d[i].Kind {
+			case "stale-san":
+				if !hostIn(zeroed, d[i].Name) {
+					d[i].Kind = "stale"
+				}
+			case "stale-mx":
+				if !hostIn(touched, d[i].Name) {
+					d[i].Kind = "stale"
+				}
+			case "extra":
+				if clause == "stale-vs-cold-start" && dnsZeroed.matches(d[i].Type, d[i].Name, d[i].Kind) {
+					d[i].Kind = kindDNSLastWorkload
+				}
+			}
+		}
+		relabelProviderUnimported(wPrev, w, trigger, d)
 		relabelSidecarSwitchesService(w, trigger, d)
 		if e != "" {
 			return &caseResult{Verdict: fmt.Sprintf("FAIL %s step=%d", e, after)}
@@ -910,6 +978,19 @@ func runCase(c caseDef) caseResult {
 		if err := st.apply(s.Op, s.ID, s.Variant, w); err != nil {
 			return caseResult{Verdict: fmt.Sprintf("FAIL apply-error step=%d %s", i+1, wire.Enc(err.Error()))}
 		}
+		for _, h := range dnsZeroed.step(s, w) {
+			for k, v := range ignore {
+				if v == kindDNSLastWorkload && hostIn(map[string]bool{h: true}, k) {
+					delete(ignore, k)
+				}
+			}
+		}
+		for _, h := range endpointHosts(s.ID, w) {
+			touched[h] = true
+			if losesLastEndpoint(s, w, h) {
+				zeroed[h] = true
+			}
+		}
 		if s.Op == "delete" {
 			delete(w, s.ID)
 		} else {
@@ -933,6 +1014,7 @@ func runCase(c caseDef) caseResult {
 			}
 		}
 		trigger = nil
+		wPrev = w.clone()
 		after := respCount()
 		for _, cl := range long.views() {
 			for _, t := range cl.def.Types {
@@ -967,6 +1049,91 @@ func runCase(c caseDef) caseResult {
 	return caseResult{Verdict: fmt.Sprintf("OK steps=%d pushed=%d skipped=%d", len(c.Steps), pushes, skips)}
 }
 
+func hostIn(hosts map[string]bool, clusterName string) bool {
+	for h := range hosts {
+		// outbound|port|subset|host, and the SNI-DNAT form outbound_.port_.subset_.host of AUTO_PASSTHROUGH gateways
+		if strings.HasSuffix(clusterName, "|"+h) || strings.HasSuffix(clusterName, "_."+h) {
+			return true
+		}
+	}
+	return false
+}
+
+// endpointHosts: the service hosts whose ENDPOINTS object id contributes (workload entries, pods)
+func endpointHosts(id string, w world) []string {
+	switch id {
+	case "we-1", "k-wepod":
+		return []string{"c.example.com", "d.example.com"}
+	case "we-k":
+		return []string{"ksvc.ns1.svc.cluster.local"}
+	case "am-we":
+		return []string{"app.com"}
+	}
+	if d := kubeIndex[id]; d != nil {
+		return []string{d.Name + "." + d.Ns + ".svc.cluster.local"}
+	}
+	return nil
+}
+
+// shardEndpoints: how many endpoints (ready or not: a listed endpoint that is not ready is still an
+// element of the shard) the registry shard of service host h holds in world w. One shard per
+// (registry, host): the pods of a Kubernetes Service and the WorkloadEntries it selects share the
+// Kubernetes shard; the WorkloadEntries and pods a ServiceEntry selects share the ServiceEntry shard.
+func shardEndpoints(w world, h string) int {
+	n := 0
+	weSelected := func() int { // workloads labelled app=we in ns1
+		k := 0
+		if v, ok := w["we-1"]; ok && v != 2 { // variant 2: labels no longer selected
+			k++
+		}
+		if _, ok := w["k-wepod"]; ok {
+			k++
+		}
+		return k
+	}
+	switch h {
+	case "c.example.com":
+		if _, ok := w["se-c"]; ok {
+			n = weSelected()
+		}
+	case "d.example.com":
+		if _, ok := w["se-d"]; ok {
+			n = weSelected()
+		}
+	case "app.com":
+		if _, ok := w["am-se"]; ok {
+			if v, ok := w["am-we"]; ok && v != 2 {
+				n = 1
+			}
+		}
+	default:
+		for _, d := range kubeUniverse {
+			if d.PodOnly || d.Name+"."+d.Ns+".svc.cluster.local" != h {
+				continue
+			}
+			if v, ok := w[d.ID]; ok {
+				n = len(d.Variants[v])
+				if _, ok := w["we-k"]; ok && d.ID == "k-svc" {
+					n++
+				}
+			}
+		}
+	}
+	return n
+}
+
+// losesLastEndpoint: the trigger of finding 3 - with this step the registry shard of host h goes from
+// some endpoints to none (the last pod / selected workload goes away while the service stays).
+func losesLastEndpoint(s step, w world, h string) bool {
+	after := w.clone()
+	if s.Op == "delete" {
+		delete(after, s.ID)
+	} else {
+		after[s.ID] = s.Variant
+	}
+	return shardEndpoints(w, h) > 0 && shardEndpoints(after, h) == 0
+}
+
 // providerServiceNs: the objects of the grammar that back a MeshConfig extension provider of
 // convergeMesh, with the namespace they live in.
 var providerServiceNs = map[string]string{"se-otel": "istio-system", "se-authz": "ns2", "k-svc": "ns1"}
@@ -995,29 +1162,59 @@ func sidecarAImports(w world) map[string]bool {
 	return nil
 }
 
-// relabelProviderUnimported recognises recorded finding 7 (notes/C01.md) by its INPUT class, not
-// by the shape of the difference: the change created / deleted / changed a service that backs an
-// extension provider (access log service, tracing collector, external authorizer), the only
-// differences are listeners of sidecar-a, and the Sidecar resource that applies to sidecar-a does
-// not import that service's namespace - so the service is not among the proxy's config
-// dependencies and the push is filtered out, although Telemetry / CUSTOM AuthorizationPolicy
-// filters resolve provider services against the global service index.
-func relabelProviderUnimported(w world, trigger []string, d []diffEntry) {
-	imports := sidecarAImports(w)
-	if imports == nil || len(d) == 0 {
+// providerUnseenBy: the proxies for which the service behind provider object id is OUTSIDE the per-proxy
+// dependency set in world w: sidecar-a when the Sidecar resource applying to it does not import the
+// service's namespace; every proxy of another namespace when the service is exported to its own
+// namespace only (the exportTo annotation of variant 6 of k-svc). nil: the object is absent.
+func providerUnseenBy(w world, id string) map[string]bool {
+	v, ok := w[id]
+	if !ok {
+		return nil
+	}
+	out := map[string]bool{}
+	ns := providerServiceNs[id]
+	if imports := sidecarAImports(w); imports != nil && !imports[ns] {
+		out["sidecar-a"] = true
+	}
+	if id == "k-svc" && v == 6 {
+		// exported to ns1 only: outside the scope of every proxy of another namespace (sidecar-b in ns2, the router in
+		// istio-system - a router's default scope holds the services VISIBLE to its namespace, and its per-proxy filter
+		// consults that scope for ServiceEntry keys like a sidecar's)
+		out["sidecar-b"], out["router"] = true, true
+	}
+	return out
+}
+
+// relabelProviderUnimported: recorded finding 6. EVERY object changed since the last comparison backs an
+// extension provider, and the only differences are LDS of sidecars for which that service is outside
+// the per-proxy dependency set (before or after the change).
+func relabelProviderUnimported(before, w world, trigger []string, d []diffEntry) {
+	if len(d) == 0 || len(trigger) == 0 {
 		return
 	}
-	unimported := false
-	for _, id := range trigger {
-		if ns, ok := providerServiceNs[id]; ok && !imports[ns] {
-			unimported = true
+	var unseen map[string]bool
+	for i, id := range trigger {
+		if _, ok := providerServiceNs[id]; !ok {
+			return
+		}
+		u := map[string]bool{}
+		for _, ww := range []world{before, w} {
+			for p := range providerUnseenBy(ww, id) {
+				u[p] = true
+			}
+		}
+		if i == 0 {
+			unseen = u
+		} else {
+			for p := range unseen {
+				if !u[p] {
+					delete(unseen, p)
+				}
+			}
 		}
 	}
-	if !unimported {
-		return
-	}
 	for _, x := range d {
-		if x.Proxy != "sidecar-a" || x.Type != "LDS" || x.Kind != "stale" {
+		if !unseen[x.Proxy] || x.Type != "LDS" || x.Kind != "stale" {
 			return
 		}
 	}
@@ -1026,20 +1223,39 @@ func relabelProviderUnimported(w world, trigger []string, d []diffEntry) {
 	}
 }
 
-// relabelSidecarSwitchesService recognises the recorded finding "a Sidecar / VirtualService-only
-// change makes a hostname resolve to another service (same host in two namespaces): CDS is pushed,
-// EDS is not" by its input class: both services of the duplicated host exist, only Sidecar /
-// VirtualService objects changed, and the only differences are stale EDS resources of that host.
+// edsIrrelevant: objects of kinds that endpoint generation does not read (`Spec.affectsEds` is false for them:
+// authorization / request authentication policies, EnvoyFilter, Telemetry, WasmPlugin, ProxyConfig, Gateway, Gateway API).
+func edsIrrelevant(id string) bool {
+	for _, p := range []string{"ap-", "ra-", "ef-", "tel-", "wasm-", "pc-", "kg-", "am-ap"} {
+		if strings.HasPrefix(id, p) {
+			return true
+		}
+	}
+	return id == "gw"
+}
+
+// relabelSidecarSwitchesService: recorded finding 5. Both ServiceEntries of the duplicated host exist, the objects
+// changed since the last comparison include a Sidecar or a VirtualService and EVERY other one is of a kind endpoint
+// generation does not read, and the only differences are EDS of that host.
 func relabelSidecarSwitchesService(w world, trigger []string, d []diffEntry) {
 	_, a := w["se-dup1"]
 	_, b := w["se-dup2"]
 	if !a || !b || len(d) == 0 || len(trigger) == 0 {
 		return
 	}
+	own := false
 	for _, id := range trigger {
-		if !strings.HasPrefix(id, "sc-") && !strings.HasPrefix(id, "vs-") {
+		switch {
+		case strings.HasPrefix(id, "sc-") || strings.HasPrefix(id, "vs-"):
+			own = true
+		case edsIrrelevant(id):
+			// merged into the same push, but of a kind endpoint generation does not read: cannot explain an EDS difference
+		default:
 			return
 		}
+	}
+	if !own {
+		return
 	}
 	for _, x := range d {
 		if x.Type != "EDS" || x.Kind != "stale" || !strings.HasSuffix(x.Name, "|dup.example.com") {
@@ -1095,6 +1311,9 @@ func genConvergeMode(seed uint64, n int, out string, ambient bool) {
 				}
 			}
 		}
+		if cr.Chance(1, 5) {
+			w[meshID] = cr.Intn(len(meshVariants))
+		}
 		// the debouncer is never off: with 0 ms istiod pushes in the same instant an event arrives and
 		// races with its own derived indexes (see notes/C01.md, "unreproduced differences")
 		deb := 10
@@ -1123,6 +1342,8 @@ func genConvergeMode(seed uint64, n int, out string, ambient bool) {
 			} else if cr.Chance(1, 12) {
 				d := wire.Pick(cr, gwapiUniverse)
 				id, nvar = d.ID, len(d.Variants)
+			} else if cr.Chance(1, 16) {
+				id, nvar = meshID, len(meshVariants)
 			} else if cr.Chance(1, 5) {
 				d := wire.Pick(cr, kubeUniverse)
 				id, nvar = d.ID, len(d.Variants)
@@ -1178,6 +1399,7 @@ func genConvergeSweep(which int, out string) {
 	for _, d := range gwapiUniverse {
 		objs = append(objs, obj{d.ID, len(d.Variants)})
 	}
+	objs = append(objs, obj{meshID, len(meshVariants)})
 	n := 0
 	for k := 0; k < 3; k++ {
 		if which >= 0 && which != k {
@@ -1187,8 +1409,8 @@ func genConvergeSweep(which int, out string) {
 		isSidecar := func(id string) bool { return id == "sc-ns1" || id == "sc-wl" }
 		base := world{}
 		for _, x := range objs {
-			if !withSidecars && isSidecar(x.id) {
-				continue
+			if !withSidecars && (isSidecar(x.id) || isMesh(x.id)) {
+				continue // base 0: no Sidecar resources, the plain MeshConfig
 			}
 			base[x.id] = (sweepPreferred[x.id] + k) % x.n
 		}
